@@ -424,6 +424,12 @@ func applyReal(pj *simdjson.ParsedJson, roots []*rj.Node, op editOp) (apiErr err
 		if err != nil {
 			return nil, nil, fmt.Errorf("Array() on the located value: %v", err)
 		}
+		// the handle that performs the deletion is also read before and after it: whatever a read leaves on the handle
+		// (nothing, as far as the API says) must not outlive the deletion
+		deep := len(op.Path) > 40
+		if !deep {
+			_, _ = arr.Interface()
+		}
 		n := 0
 		arr.DeleteElems(func(i simdjson.Iter) bool {
 			log = append(log, "#"+typeOfIter(&i))
@@ -431,6 +437,18 @@ func applyReal(pj *simdjson.ParsedJson, roots []*rj.Node, op editOp) (apiErr err
 			n++
 			return d
 		})
+		if !deep {
+			after, ierr := arr.Interface()
+			if ierr != nil {
+				return nil, nil, fmt.Errorf("Array.Interface on the handle that performed the deletion: %v", ierr)
+			}
+			if _, _, node, merr := modelSlot(roots, op.Path); merr == nil && node != nil && node.K == rj.Arr {
+				want := canonNode(nil, node, canonOpts{noFlags: true, mapMode: true})
+				if got := canonIface(nil, after); !bytes.Equal(got, want) {
+					return nil, nil, fmt.Errorf("Array.Interface on the handle that performed the deletion (and was read before it): %s", diffCanon(want, got))
+				}
+			}
+		}
 		return nil, log, nil
 	case "DelObj":
 		obj, err := it.Object(nil)
